@@ -31,7 +31,7 @@ theorem pcrel_sound (op imm : BitVec 32) (rd : Register) (w : BitVec 32)
     w &&& 520093696#32 = 268435456#32 := by
   unfold cls.pcrel at h
   cls_norm at h
-  bv_decide
+  bv_decide (timeout := 600)
 
 example : ∃ w, cls.pcrel 1#32 4294967295#32 R17 = .ok w := ⟨_, rfl⟩
 
@@ -48,7 +48,7 @@ theorem test_and_branch_sound (op bit imm14 : BitVec 32) (rt : Register) (w : Bi
     w &&& 2113929216#32 = 905969664#32 := by
   unfold cls.test_and_branch at h
   cls_norm at h
-  bv_decide
+  bv_decide (timeout := 600)
 
 example : ∃ w, cls.test_and_branch 1#32 37#32 4294967295#32 R17 = .ok w := ⟨_, rfl⟩
 
@@ -68,7 +68,7 @@ theorem signed_fields_exact (x : BitVec 32) :
     (fits_i21 x = true → BitVec.signExtend 32 (BitVec.setWidth 21 x) = x) ∧
     (fits_i26 x = true → BitVec.signExtend 32 (BitVec.setWidth 26 x) = x) := by
   simp only [fits_i7, fits_i9, fits_i14, fits_i19, fits_i21, fits_i26]
-  bv_decide
+  bv_decide (timeout := 600)
 
 example : fits_i19 4294705152#32 = true := by decide
 
@@ -85,7 +85,7 @@ theorem unsigned_fields_exact (x : BitVec 32) :
     (fits_u13 x = true → BitVec.setWidth 32 (BitVec.setWidth 13 x) = x) ∧
     (fits_u16 x = true → BitVec.setWidth 32 (BitVec.setWidth 16 x) = x) := by
   simp only [fits_bit, fits_u2, fits_u3, fits_u4, fits_u5, fits_u6, fits_u7, fits_u12, fits_u13, fits_u16]
-  bv_decide
+  bv_decide (timeout := 600)
 
 example : fits_u12 4095#32 = true := by decide
 
@@ -99,12 +99,12 @@ theorem addsub_imm_encoding_sound (imm sh i12 : BitVec 32) (h : encode_addsub_im
     obtain ⟨rfl, rfl⟩ := h
     rename_i hc
     refine ⟨?_, Or.inl ⟨rfl, rfl⟩⟩
-    bv_decide
+    bv_decide (timeout := 600)
   · split at h
     · simp only [Option.some.injEq, Prod.mk.injEq] at h
       obtain ⟨rfl, rfl⟩ := h
       rename_i _ hc
-      refine ⟨?_, Or.inr ⟨rfl, ?_⟩⟩ <;> bv_decide
+      refine ⟨?_, Or.inr ⟨rfl, ?_⟩⟩ <;> bv_decide (timeout := 600)
     · simp at h
 
 example : encode_addsub_imm 16773120#32 = some (1#32, 4095#32) := by decide
@@ -117,14 +117,14 @@ theorem addsub_imm_encoding_refuses (imm : BitVec 32) :
   split
   · rename_i hc
     simp only [reduceCtorEq, false_iff, not_and]
-    intro h1; exfalso; apply h1; bv_decide
+    intro h1; exfalso; apply h1; bv_decide (timeout := 600)
   · split
     · rename_i hc1 hc2
       simp only [reduceCtorEq, false_iff, not_and]
-      intro _ h2; apply h2; bv_decide
+      intro _ h2; apply h2; bv_decide (timeout := 600)
     · rename_i hc1 hc2
       simp only [true_iff]
-      constructor <;> bv_decide
+      constructor <;> bv_decide (timeout := 600)
 
 example : encode_addsub_imm 4097#32 = none := by decide
 
